@@ -154,6 +154,8 @@ def replay(ctx, rec):
     if rec.get("witness", {}).get("state") is not None:
         from contracts import C19rows
         from dpvc import replay as dreplay
+        if any(rec.get("witness", {}).get("function", "").endswith(c.name) for c in C19rows.REMOVALS):
+            return dreplay.replay_state_record(rec, C19rows.REMOVALS, C19rows._removal_states)
         return dreplay.replay_state_record(rec, C19rows.SEQ + C19rows.CONTRACTS, C19rows._states)
     r = native_concatenate_hang()
     print(r or "concatenate terminates and records one subset per matrix on the witness")
